@@ -121,14 +121,15 @@ int run_case(Reader& r, bool& nontrivial, std::string& desc) {
             int file = (int)r.below(4), line = (int)r.below(1000); bool separate = r.flag();
             g_next_residue = r.below(3) ? r.below(4) : r.below(73);   // mostly a few buckets: long chains
             g_node_fail = separate && r.below(24) == 1;                // fault: the separate bookkeeping record cannot be allocated
-            uint32_t how = r.below(12);                                // 0: through realloc(NULL, n) (an allocation too), 1: the underlying allocator fails
+            uint32_t how = r.below(12);                                // 0: through realloc(NULL, n) (an allocation too), 1: the underlying allocator fails, 2: a size that overflows once bookkeeping is added
             bool via_realloc = how == 0; g_alloc_fail = how == 1 && !g_node_fail;
+            bool too_big = how == 2 && !g_node_fail; if (too_big) { size = (size_t)-1 - r.below(96); via_realloc = r.flag(); }
             char* p = via_realloc ? det->reallocMemory(g_allocs[kind], NULLPTR, size, FILES[file], (size_t)line, separate)
                                   : det->allocMemory(g_allocs[kind], size, FILES[file], (size_t)line, separate);
             what = sfmt("%s(%s,%zu,%s:%d,%s,res%u%s)", via_realloc ? "realloc-null" : "alloc", KIND_NAME[kind], size, FILES[file], line, separate ? "sep" : "inl", g_next_residue, g_node_fail ? ",record-fault" : g_alloc_fail ? ",allocator-fault" : "");
             if (via_realloc) verif::cls("alloc-through-realloc-null");
-            if (g_node_fail || g_alloc_fail) {   // a request that cannot be satisfied: NULL, nothing tracked, nothing kept
-                verif::cls(g_node_fail ? "alloc-record-fault" : "alloc-allocator-fault");
+            if (g_node_fail || g_alloc_fail || too_big) {   // a request that cannot be satisfied: NULL, nothing tracked, nothing kept
+                verif::cls(g_node_fail ? "alloc-record-fault" : g_alloc_fail ? "alloc-allocator-fault" : "alloc-size-overflow");
                 g_node_fail = false; g_alloc_fail = false; nontrivial = true;
                 V_CHECK(p == NULLPTR, "C04:fault-alloc-not-null", "%s returned a block although the request could not be satisfied", what.c_str());
                 desc += what + ";";
@@ -151,14 +152,15 @@ int run_case(Reader& r, bool& nontrivial, std::string& desc) {
             char* p = live[r.below((uint32_t)live.size())]; Rec rec = model[p];
             size_t nsize = r.below(4) == 0 ? (r.below(8) == 0 ? r.below(4001) : r.below(301)) : r.below(24); int file = (int)r.below(4), line = (int)r.below(1000);
             g_realloc_inplace = r.flag(); g_next_residue = r.below(3) ? r.below(4) : r.below(73);
-            int fault = r.below(10) == 1 ? 1 + (int)r.below(2) : 0;    // 1: the platform realloc fails, 2: the new separate record cannot be allocated
+            int fault = r.below(10) == 1 ? 1 + (int)r.below(3) : 0;    // 1: the platform realloc fails, 2: the new separate record cannot be allocated, 3: a size that overflows once bookkeeping is added
             if (fault == 2 && !rec.separate) fault = 1;
+            if (fault == 3) nsize = (size_t)-1 - r.below(96);
             g_realloc_fail = fault == 1; g_node_fail = fault == 2;
-            what = sfmt("realloc(#%u,%zu,%s%s)", rec.number, nsize, g_realloc_inplace ? "inplace" : "move", fault == 1 ? ",realloc-fault" : fault == 2 ? ",record-fault" : "");
+            what = sfmt("realloc(#%u,%zu,%s%s)", rec.number, nsize, g_realloc_inplace ? "inplace" : "move", fault == 1 ? ",realloc-fault" : fault == 2 ? ",record-fault" : fault == 3 ? ",size-overflow" : "");
             char* q = det->reallocMemory(g_allocs[rec.kind], p, nsize, FILES[file], (size_t)line, rec.separate);
             g_realloc_fail = false; g_node_fail = false;
             if (fault) {   // a failed reallocation: NULL, and the old block is still valid and still tracked exactly as before
-                nontrivial = true; verif::cls(fault == 1 ? "realloc-fault" : "realloc-record-fault");
+                nontrivial = true; verif::cls(fault == 1 ? "realloc-fault" : fault == 2 ? "realloc-record-fault" : "realloc-size-overflow");
                 V_CHECK(q == NULLPTR, "C04:fault-realloc-not-null", "%s returned a block", what.c_str());
                 desc += what + ";";
                 V_CHECK(rep.calls == calls_before, "C04:reporter", "%s: misuse callback: %.200s", what.c_str(), rep.last.c_str());
